@@ -207,13 +207,18 @@ func WriteRun(dir, header, verdictFn string, results []Result, perShard int) err
 			return err
 		}
 		w := bufio.NewWriter(f)
-		fmt.Fprintf(w, "%s\nOpen Scope Z_scope.\nDefinition cases := [\n", header)
+		// one Definition per case keeps each term small (a single huge list literal overflows coqc's stack)
+		fmt.Fprintf(w, "%s\nOpen Scope Z_scope.\n", header)
+		for n, r := range results[i:j] {
+			fmt.Fprintf(w, "Definition case_%d := %s.\n", n, r.Term)
+		}
+		fmt.Fprintf(w, "Definition cases := [\n")
 		for n, r := range results[i:j] {
 			sep := ";"
 			if n == j-i-1 {
 				sep = ""
 			}
-			fmt.Fprintf(w, " (%s, %s)%s\n", Z(r.ID), r.Term, sep)
+			fmt.Fprintf(w, " (%s, case_%d)%s\n", Z(r.ID), n, sep)
 		}
 		fmt.Fprintf(w, "].\nDefinition R := Eval vm_compute in bad_cases %s cases.\nPrint R.\n", verdictFn)
 		if err := w.Flush(); err != nil {
